@@ -65,8 +65,11 @@ PARTIAL = ["the local propagator itself (time_evolve) is property C20",
            "form for the link function (link_heff_whole_program: built from the tensors of ALL nodes, bond opened, both "
            "sweep orientations) and the two-site function (two_site_heff_whole_program, two_site_heff_whole_program_up: "
            "all operator tensors, ket / bra tensors of all nodes except the pair); E, H, B in these value clauses are ANY "
-           "admissible split of the leaves - a canonical envKet / envBra / opAll for a non-root site is NOT defined "
-           "(existence of a split is shown on examples only); the value-level "
+           "admissible split of the leaves; for the SINGLE-SITE function the split is no longer quantified "
+           "(site_heff_eq_projected, every site of every tree: canonical envKet / envBra = seqExpr over the ket / bra "
+           "tensors of all other nodes and the bonds not at the site, opAll = the C04 whole-TTNO program; SWF, leaves = "
+           "wholeLeaves, records and free physical legs proved), for the link and the two-site function a canonical split "
+           "is NOT instantiated (existence of a split is shown on examples only); the value-level "
            "semantics is tied to the code by the 'heffval' cases (integer tensors, the Lean model evaluates the proved "
            "record with netValue and must reproduce the library's matrix exactly) and the 'treeval' cases (every site, "
            "every edge in both orientations, every adjacent pair in both orders of every ordered tree with 2..4 nodes: "
